@@ -1,6 +1,6 @@
 (** Extraction of the executable model for the correspondence driver.
     ExtrOcamlBasic only; N and Z stay the extracted inductives. *)
-Require Import Base Kinds GenUnionTable Schema Varint Utf8 Sval Ser Rabin CrcSpec Text CanonicalForm Target Reader De VectoredWrite.
+Require Import Base Kinds GenUnionTable Schema Varint Utf8 Sval Ser Rabin CrcSpec Text CanonicalForm Target Reader De VectoredWrite AvroValue Encoding Denote.
 Require Extraction.
 Require Import ExtrOcamlBasic.
 Extraction Language OCaml.
@@ -14,4 +14,6 @@ Separate Extraction
   Rabin.rabin Rabin.rabin_finish CrcSpec.crc64_avro CrcSpec.le64
   CanonicalForm.canonical_form CanonicalForm.fingerprint
   De.de_datum De.cfg_default Reader.slice_reader Reader.chunked_reader
-  VectoredWrite.write_all_vectored.
+  VectoredWrite.write_all_vectored
+  AvroValue.conforms Encoding.encode_e Encoding.erase Encoding.layout_ok Encoding.canon Encoding.spec_encode
+  Denote.dval_any Denote.present Denote.erase_borrow.
